@@ -39,6 +39,7 @@ class CEval:
                 self.comb.setdefault(k, []).append(l)
         self.objs = {str(o): o for o in view.d.objs}
         self.state = {}        # fsm id -> current state name (for FSM-local comb leaves)
+        self.missing = set()   # registers read without a value in env (evaluated as 0)
 
     # ---- configuration-time integers ----------------------------------------------------------------------------------
     def cint(self, t):
@@ -123,6 +124,8 @@ class CEval:
         m = self._model_width(k)
         if m is not None:
             return m
+        if isinstance(t, (Sym, Obj)) and k.rsplit(".", 1)[-1] in ("valid", "ready", "last", "first", "we", "lock", "ce", "ack", "stb", "cyc"):
+            return 1      # handshake / strobe fields of records and endpoints
         raise Unresolved("width of %s" % k[:80])
 
     def _bounds(self, t):
@@ -223,6 +226,13 @@ class CEval:
             if m is not None:
                 self.cache[ck] = m
                 return m
+            if k in self.sync:
+                # a register read combinationally: its current value is a free input of the truth table; remembered so that the caller can enumerate it
+                self.missing.add(k)
+                return 0
+            if isinstance(t, Obj) and t.cls == "Signal" and "." not in k:
+                rs = t.kwargs.get("reset")
+                return self.cint(rs) if rs is not None else 0      # a locally built signal that nothing drives keeps its reset value
             raise Unresolved("undriven input %s" % k)
         self.busy.add(ck)
         try:
